@@ -190,6 +190,20 @@ type encEvent struct {
 	Existed bool
 }
 
+// entryName splits a listing entry into its name and type: a trailing "/" marks a directory,
+// "@" a symbolic link, "|" a named pipe (non-regular entries that are not directories).
+func entryName(rel string) (string, fs.FileMode) {
+	switch {
+	case strings.HasSuffix(rel, "/"):
+		return strings.TrimSuffix(rel, "/"), fs.ModeDir
+	case strings.HasSuffix(rel, "@"):
+		return strings.TrimSuffix(rel, "@"), fs.ModeSymlink
+	case strings.HasSuffix(rel, "|"):
+		return strings.TrimSuffix(rel, "|"), fs.ModeNamedPipe
+	}
+	return rel, 0
+}
+
 var procRe = regexp.MustCompile(`processing:&\{([^ ]*) `)
 
 func runGopro(in *goproInput) goproObs {
@@ -204,12 +218,13 @@ func runGopro(in *goproInput) goproObs {
 	}
 	for _, rel := range in.Listing {
 		mt += 10
-		if strings.HasSuffix(rel, "/") {
-			ffs.m[joinClean(in.Source, strings.TrimSuffix(rel, "/"))] = &fstest.MapFile{Mode: fs.ModeDir}
+		name, mode := entryName(rel)
+		if mode.IsDir() {
+			ffs.m[joinClean(in.Source, name)] = &fstest.MapFile{Mode: fs.ModeDir}
 			continue
 		}
-		p := joinClean(in.Source, rel)
-		ffs.m[p] = &fstest.MapFile{ModTime: time.Unix(mt, 0)}
+		p := joinClean(in.Source, name)
+		ffs.m[p] = &fstest.MapFile{ModTime: time.Unix(mt, 0), Mode: mode}
 		world[p] = mt
 	}
 	for _, p := range in.Existing {
@@ -335,11 +350,12 @@ func addGoproCase(ctx *Ctx, in *goproInput, tags ...string) goproObs {
 	}
 	// listing in WalkDir (lexical) order, with directory flags; entries inside sub-directories included
 	lst := append([]string{}, in.Listing...)
-	sort.Strings(lst)
+	sort.Slice(lst, func(i, j int) bool { a, _ := entryName(lst[i]); b, _ := entryName(lst[j]); return a < b })
 	ls := make([]string, len(lst))
 	for i, rel := range lst {
-		isdir := strings.HasSuffix(rel, "/")
-		ls[i] = fmt.Sprintf("(%s, %s)", CoqStr(strings.TrimSuffix(rel, "/")), CoqBool(isdir))
+		name, mode := entryName(rel)
+		// symbolic links and pipes are "other names": to the property they are files like any other
+		ls[i] = fmt.Sprintf("(%s, %s)", CoqStr(name), CoqBool(mode.IsDir()))
 	}
 	evs := make([]string, len(o.Events))
 	for i, e := range o.Events {
@@ -468,9 +484,14 @@ func genListing(r *Rng, in *goproInput) {
 	if r.Chance(0.1) {
 		in.Listing = append(in.Listing, "GH010010.mp4/") // a directory with a conforming name
 	}
+	if r.Chance(0.12) {
+		// a non-regular entry that is not a directory, somewhere in the lexical order
+		in.Listing = append(in.Listing, Pick(r, []string{"AAA-link@", "GH010000-notes@", "GOPR-fifo|", "Gmiddle.txt@", "GX015000.lnk|", "zzz@"}))
+	}
 	// skip list and pre-existing outputs
 	if r.Chance(0.3) && len(in.Listing) > 0 {
-		in.Skip = []string{strings.TrimSuffix(Pick(r, in.Listing), "/")}
+		n, _ := entryName(Pick(r, in.Listing))
+		in.Skip = []string{n}
 	}
 }
 
